@@ -60,15 +60,24 @@ ALPHABETS = [
     ["X", "x", "Xa", "xA", "xa"],  # (4) equal up to case, valid identifiers
     ["a", " a", "\u00df", "ss", "a "],  # (5) equal up to surrounding whitespace; casefold("\u00df") == "ss"
     ["\ufb01", "fi", "\u212a", "k", "K"],  # (6) NFKC("\ufb01") == "fi"; lower(KELVIN SIGN) == "k" == lower("K")
+    # (7) valid identifiers that other parts of the library give a special meaning to as *keywords* (update rules receive
+    # `state`): in a plain dictionary of definitions they are variable names like any other
+    ["state", "self", "kws", "dag", "f"],
 ]
-GRID_ALPHABETS = [0, 1, 2, 4, 5, 6]
+GRID_ALPHABETS = [0, 1, 2, 4, 5, 6, 7]
 UNKNOWN = "zz"
 CTORS_FOR_ALPHABET = {0: ("direct", "from_dict", "from_dict_nif"), 1: ("direct", "from_dict", "from_dict_nif"),
                       2: ("direct", "from_dict_nif"), 3: ("direct", "from_dict", "from_dict_nif"),
                       4: ("direct", "from_dict", "from_dict_nif"),
                       # (5), (6): not usable as keyword names (blanks; the parser NFKC-normalises identifiers)
-                      5: ("direct", "from_dict_nif"), 6: ("direct", "from_dict_nif")}
-SITE = {"direct": "VariablesDAG()", "from_dict": "VariablesDAG.from_dict", "from_dict_nif": "VariablesDAG.from_dict"}
+                      5: ("direct", "from_dict_nif"), 6: ("direct", "from_dict_nif"),
+                      7: ("direct", "from_dict", "from_dict_sig")}
+# "from_dict_sig": keyword-only functions that all come from ONE factory (one shared code object) and carry their parameters
+# in `__signature__` / through `functools.wraps` - what inspect.signature reads, as the library does
+CTORS_FOR_ALPHABET[0] = CTORS_FOR_ALPHABET[0] + ("from_dict_sig",)
+CTORS_FOR_ALPHABET[3] = CTORS_FOR_ALPHABET[3] + ("from_dict_sig",)
+SITE = {"direct": "VariablesDAG()", "from_dict": "VariablesDAG.from_dict", "from_dict_nif": "VariablesDAG.from_dict",
+        "from_dict_sig": "VariablesDAG.from_dict"}
 
 
 @functools.lru_cache(None)
@@ -150,11 +159,36 @@ def kw_fn(params: tuple):
     return ns["f"]
 
 
+def _passthrough(g):
+    @functools.wraps(g)
+    def wrapper(**kws):
+        return g(**kws)
+    return wrapper
+
+
+@functools.lru_cache(None)
+def sig_fn(params: tuple):
+    """Same keyword-only parameters as kw_fn(params), but the function object shares its code with every other one: either a
+    generic `def f(**kws)` carrying an explicit `__signature__`, or a functools.wraps wrapper (even / odd number of parameters)."""
+    import inspect
+
+    if len(params) % 2 == 1:
+        return _passthrough(kw_fn(params))
+
+    def f(**kws):
+        return 0
+
+    f.__signature__ = inspect.Signature([inspect.Parameter(p, inspect.Parameter.KEYWORD_ONLY) for p in params])
+    return f
+
+
 @functools.lru_cache(None)
 def _linked(kind, params: tuple):
     """Specifications are immutable (frozen dataclasses): one instance per distinct parameter tuple is shared by all cases."""
     if kind == "from_dict":
         return LinkedVariable(kw_fn(params))
+    if kind == "from_dict_sig":
+        return LinkedVariable(sig_fn(params))
     return LinkedVariable(Sum(*params))
 
 
@@ -193,8 +227,8 @@ def build_inputs(case):
             variables[names[i]] = _root_variable(i)
         elif ctor == "from_dict":
             variables[names[i]] = _linked("from_dict", tuple(ordered(parents[i])))
-        elif ctor == "from_dict_nif":
-            variables[names[i]] = _linked("from_dict_nif", tuple(ordered(parents[i])))
+        elif ctor in ("from_dict_nif", "from_dict_sig"):
+            variables[names[i]] = _linked(ctor, tuple(ordered(parents[i])))
         else:
             raise ValueError(ctor)
     if ctor != "direct":
